@@ -218,6 +218,13 @@ func raceC06(seed uint64, seconds int) {
 						if err != nil || u != k.witness {
 							rep.badf("URL(strict,%s) = %q, %v; want %q", k.pattern, u, err, k.witness)
 						}
+						// non-strict building parses the pattern text itself (no tree, no tree lock): regexp parameters with
+						// ever new text, from several goroutines at once
+						n := rg.IntN(1 << 20)
+						pat := "/n/" + strconv.Itoa(n) + "/{id:\\d+}/{w:[a-z]+}.x" + strconv.Itoa(n%7)
+						if u, err := r.URL(false, pat, map[string]string{"id": "5", "w": "ab"}); err != nil || u != "/n/"+strconv.Itoa(n)+"/5/ab.x"+strconv.Itoa(n%7) {
+							rep.badf("URL(non-strict,%s) = %q, %v", pat, u, err)
+						}
 					}()
 					nURL.Add(1)
 				case 2, 3, 4: // toggled route: one of its handlers, 404 or 405
@@ -652,6 +659,12 @@ func raceC11(seed uint64, seconds int) {
 				req.Header.Set("Origin", origin)
 				if req.Method == "OPTIONS" {
 					req.Header.Set("Access-Control-Request-Method", "POST")
+					switch rg.IntN(3) {
+					case 0:
+						req.Header.Set("Access-Control-Request-Headers", "content-type")
+					case 1:
+						req.Header.Set("Access-Control-Request-Headers", "content-type, accept-language, x-requested-with, x-evil-"+strings.Repeat("z", rg.IntN(40)))
+					}
 				}
 				func() {
 					defer func() {
@@ -662,6 +675,18 @@ func raceC11(seed uint64, seconds int) {
 					r.ServeHTTP(w, req)
 				}()
 				got := w.hdr.Get("Access-Control-Allow-Origin")
+				if acrh := req.Header.Get("Access-Control-Request-Headers"); acrh != "" && origin == listed {
+					// the verdict on the requested headers is a function of THIS request's list
+					allowedList := !strings.Contains(acrh, "x-evil")
+					if allowedList && (got != listed || w.hdr.Get("Access-Control-Allow-Headers") == "") {
+						rep.badf("cors: preflight asking for the configured header %q was refused: %v", acrh, w.hdr)
+					}
+					if !allowedList && got != "" {
+						rep.badf("cors: preflight asking for %q was granted: %v", acrh, w.hdr)
+					}
+					n.Add(1)
+					continue
+				}
 				if origin == listed && got != listed {
 					rep.badf("cors: listed origin %s answered with Access-Control-Allow-Origin %q", origin, got)
 				}
